@@ -111,3 +111,29 @@ Proof.
   intros Ha He Hu Hn. destruct (TW.tc_spec_agree e Hu n Hn) as (k & Hs).
   exact (proj1 (spec_to_static F G A) Ha e k _ He Hs).
 Qed.
+
+(* the retyped empty literal of a value slot: the implementation model converts the source [] / {}
+   to the slot's (closed array / map) type *)
+Theorem impl_ctx_zero t e st G : zero_lit t e = true -> sty_of t = Some st ->
+  exists e' shown, erase G e = Some e' /\
+    T.check (S.CAssign st) e' = T.Accept (T.fixed_type (T.embed st)) shown.
+Proof.
+  unfold zero_lit. intros H Hst.
+  destruct e; try discriminate.
+  - destruct es; [|discriminate]. destruct t; try discriminate. exists (S.EArr []).
+    simpl in Hst. destruct (sty_of t) as [u|]; [|discriminate]. inversion Hst; subst st.
+    eexists. split; [reflexivity|]. unfold T.check, T.check_accept. cbn [T.tc map T.seq_outcomes T.node_type T.embed T.fixed_type].
+    assert (T.accepts (T.TArr true (T.embed u)) T.TEmptyArr = true) as -> by reflexivity.
+    cbn [T.wrap_any T.node_type]. cbv zeta.
+    assert (T.equals (T.TArr true (T.embed u)) T.TEmptyArr = false) as ->.
+    { simpl. rewrite TP.equals_none_r. apply TP.spec_not_none. apply TP.spec_embed. }
+    reflexivity.
+  - destruct pairs; [|discriminate]. destruct t; try discriminate. exists (S.EMap []).
+    simpl in Hst. destruct (sty_of t) as [u|]; [|discriminate]. inversion Hst; subst st.
+    eexists. split; [reflexivity|]. unfold T.check, T.check_accept. cbn [T.tc map T.seq_outcomes T.node_type T.embed T.fixed_type].
+    assert (T.accepts (T.TMap true (T.embed u)) T.TEmptyMap = true) as -> by reflexivity.
+    cbn [T.wrap_any T.node_type]. cbv zeta.
+    assert (T.equals (T.TMap true (T.embed u)) T.TEmptyMap = false) as ->.
+    { simpl. rewrite TP.equals_none_r. apply TP.spec_not_none. apply TP.spec_embed. }
+    reflexivity.
+Qed.
